@@ -282,13 +282,12 @@ Proof.
     intros x Hx. apply Hin1. eapply in_remove_sid. exact Hx.
 Qed.
 
-Lemma do_rx_inv s m s' ev : Inv s -> do_rx s m = (s', ev) -> Inv s'.
+Lemma do_rx_core_inv s m s' ev : Inv s -> do_rx_core s m = (s', ev) -> Inv s'.
 Proof.
-  intros I. unfold do_rx.
+  intros I. unfold do_rx_core.
   destruct (find_key (sessions s) (m_key m)) as [se|] eqn:Hk.
   - destruct (find_key_some _ _ _ Hk) as [Hse _].
-    set (m1 := if s_group se then strip_mrp m else m).
-    destruct (session_post_recv se m1 (now s)) as [se1 r] eqn:Hp.
+    destruct (session_post_recv se m (now s)) as [se1 r] eqn:Hp.
     destruct (session_post_recv_fields _ _ _ _ _ Hp) as [Eid _].
     set (ss1 := upd_sid (sessions s) (s_id se) (fun _ => se1)).
     assert (Hsub : sub_same (sessions s) ss1).
@@ -330,8 +329,9 @@ Proof.
     + destruct (session_post_recv (new_session (next_sid s) (m_key m) false false) m (now s)) as [se1 r] eqn:Hp.
       destruct (new_sess_inv _ _ _ _ _ _ _ I Hp) as [Hkeep Hrem]. rx_dispatch Hkeep Hrem.
     + destruct (m_enc m && m_group m).
-      * destruct (session_post_recv (new_session (next_sid s) (m_key m) true true) (strip_mrp m) (now s)) as [se1 r] eqn:Hp.
-        destruct (new_sess_inv _ _ _ _ _ _ _ I Hp) as [Hkeep Hrem]. rx_dispatch Hkeep Hrem.
+      * destruct (session_post_recv (new_session (next_sid s) (m_key m) true true) m (now s)) as [se1 r] eqn:Hp.
+        destruct (new_sess_inv _ _ _ _ _ _ _ I Hp) as [Hkeep Hrem].
+        rx_dispatch Hkeep Hrem.
       * cbn zeta. intros H; inversion H; subst. destruct I. constructor; simp_sys; try assumption. discriminate.
 Qed.
 
@@ -523,6 +523,15 @@ Lemma gc_inv ss r hs t k sid :
   Inv (mkSys ss r hs t k) -> Inv (mkSys (group_gc ss sid) r hs t k).
 Proof.
   intros I. destruct (group_gc_cases ss sid) as [-> | ->]; [exact I|apply remove_inv; exact I].
+Qed.
+
+Lemma do_rx_inv s m s' ev : Inv s -> do_rx s m = (s', ev) -> Inv s'.
+Proof.
+  intros I. unfold do_rx. destruct (do_rx_core s m) as [s1 ev1] eqn:E.
+  pose proof (do_rx_core_inv _ _ _ _ I E) as I1.
+  destruct (rx_sid s m) as [sid|]; [|intros H; inversion H; subst; exact I1].
+  destruct (m_group m && negb (is_holding (rx s1))); intros H; inversion H; subst; [|exact I1].
+  apply gc_inv. destruct s1; exact I1.
 Qed.
 
 (** ** every step preserves the invariant *)
